@@ -12,8 +12,9 @@ From Coq Require Import List Bool Arith ZArith.
 Import ListNotations.
 Require Import Nib.C20.SMapDef.
 
-Definition key := nat.
-Definition id := nat.
+(** [key]: rank of a store key; [id]: id of an opaque payload — both plain [nat] *)
+Notation key := nat (only parsing).
+Notation id := nat (only parsing).
 
 (** facts about the genesis code that are re-extracted from /repo on every run (Gen/C20Facts.v) *)
 Inductive rid_rule :=
